@@ -247,15 +247,10 @@ func c09Shared(c *lib.Ctx) {
 	src.owner = e.db
 	e.awaitHandle(src)
 	e.waitTasks()
-	if lib.Known("old-instance-gc") {
-		// exclusion predicate of the known finding: the source is modelled as a dead process whose
-		// objects are never collected
+	dropSource := !lib.Known("old-instance-gc") && r.Intn(3) > 0
+	if !dropSource {
+		// the source is a dead process: its objects are never collected (no cleanup of it ever runs)
 		e.pinned = append(e.pinned, e.db)
-	} else {
-		// in-place redeploy: the source object is dropped and collected while its files are shared
-		c.Feat("source_instance_dropped_in_process", 1)
-		src.owner = nil
-		e.db = nil // tasks were waited for above
 	}
 	// phase 2: n databases restored from N, each owning a share of the keys, sharing N's tables
 	n := 2 + r.Intn(2)
@@ -276,6 +271,15 @@ func c09Shared(c *lib.Ctx) {
 		e.logOp("restore(%d) into %s owning share %d/%d", src.id, dir, i, n)
 		l.db = dkv.Open(opts, []recovery.CheckpointHandle{*src.h})
 		live = append(live, l)
+	}
+	if dropSource {
+		// in-place redeploy: the previous database object of the process is dropped once its successors are
+		// open (Operator.HandleDeploy keeps the old one referenced until dkv.Open has returned) and is
+		// collected while its files are shared with them
+		c.Feat("source_instance_dropped_in_process", 1)
+		src.owner = nil
+		e.db = nil // tasks were waited for above
+		e.gcSettle()
 	}
 	readShare := func(l *liveDB, what string) {
 		var ownKeys [][]byte
